@@ -34,7 +34,7 @@ ASSUMPTIONS = ["known findings are keyed by (phase, exception type, raising "
                "pox.lib.packet per parse+print+pack"]
 REQUIRED = ["frames", "parsed_ok", "truncations", "corruptions", "structured",
             "random_frames", "chains_walked", "reserialised", "printed",
-            "budget_armed", "packet_in_events"]
+            "budget_armed", "packet_in_events", "checksum_fixed_mutants"]
 TIMEOUT = {"quick": 1200, "thorough": 10800}
 
 _st = {}
@@ -205,6 +205,35 @@ def mutations (name, raw, rng, tier):
       yield "struct", raw[:p] + bytes(pair) + raw[p + 2:]
 
 
+def icmp6_fixups (raw, rng, tier):
+  """
+  POX looks inside an ICMPv6 message only when its checksum is right, so a
+  plain byte corruption never reaches the code behind that gate.  For frames
+  that are Ethernet / IPv6 / ICMPv6 (no extension headers): corrupt one byte
+  of the ICMPv6 body, or cut the message short, and put the right checksum
+  (and IPv6 payload length) back.
+  """
+  if len(raw) < 58 or raw[12:14] != b"\x86\xdd" or raw[20] != 58: return
+  from pvm.ref import inet
+  src = raw[22:38]; dst = raw[38:54]
+  msg = raw[54:]
+  def rebuild (m):
+    m = m[:2] + b"\0\0" + m[4:]
+    c = inet.l4_csum6(src, dst, 58, m)
+    m = m[:2] + struct.pack("!H", c) + m[4:]
+    return raw[:18] + struct.pack("!H", len(m)) + raw[20:54] + m
+  for k in range(4, len(msg)):
+    yield "fixup", rebuild(msg[:k])
+  quick = tier == "quick"
+  for p in range(0, len(msg)):
+    if p in (2, 3): continue
+    vals = set([0, 0xff, msg[p] ^ 1, msg[p] ^ 0x80, (msg[p] + 1) & 0xff, 14, 24, 25])
+    if not quick: vals = set(range(256))
+    for v in sorted(vals):
+      if v == msg[p]: continue
+      yield "fixup", rebuild(msg[:p] + bytes([v]) + msg[p + 1:])
+
+
 def random_frames (rng, n):
   types_ = [0x0800, 0x0806, 0x86dd, 0x8100, 0x88cc, 0x888e, 0x8847, 0x8035,
             0x0026, 0x05dc]
@@ -238,6 +267,9 @@ def run (spec, rep):
     case = dict(frame=b, base=name, mut=mut)
     do_case(case, rep)
     if first and mut == "byte": rep.sample(case); first = False
+  for mut, b in icmp6_fixups(raw, rng, spec["tier"]):
+    rep.count("checksum_fixed_mutants")
+    do_case(dict(frame=b, base=name, mut=mut), rep)
   for mut, b in random_frames(rng, spec["rand"]):
     rep.count("random_frames")
     do_case(dict(frame=b, base="random", mut=mut), rep)
